@@ -64,6 +64,15 @@ def run(ctx):
     from circuitgraph import props, tx
 
     ctx.functions(tx.sensitization_transform, tx.sensitivity_transform, props.sensitivity, props.influence, props.avg_sensitivity, props.sensitize)
+    # history: somebody else in the process has used (and edited) the generated blocks sensitivity_transform is built from;
+    # the transform must not be built from those objects
+    from circuitgraph import logic
+    for w in range(1, 10):
+        for gen, args in (("popcount", (w,)), ("adder", (w,)), ("half_adder", ()), ("full_adder", ())):
+            junk, _e = call(getattr(logic, gen), *args)
+            if junk is not None:
+                junk.graph.clear()
+                junk.blackboxes.clear()
     for cid, spec in ctx.cases(all_cases(ctx)):
         A = Net.from_spec(spec)
         if wellformed(A) or not A.is_acyclic() or A.bbs or A.has_x():
